@@ -312,7 +312,7 @@ class Conv:
         pdus = self.cache.answer(q)
         k = min(k, len(pdus) - 1)
         b = b"".join(pdus[:k])
-        if partial and k < len(pdus) and how in ("err", "close", "timeout", "stop"):
+        if partial and k < len(pdus) and how in ("err", "close", "timeout", "stop", "intr"):
             # a truncated PDU, then a transport fault (never followed by more bytes: that would re-frame the stream)
             b += pdus[k][:self.rnd.randint(1, len(pdus[k]) - 1)]
         else:
@@ -322,6 +322,8 @@ class Conv:
             self.s.err(1)
         elif how == "close":
             self.s.err(4)
+        elif how == "intr":
+            self.s.err(3)               # the receive call is interrupted (TR_INTR): the exchange is given up, the connection is not
         elif how == "timeout":
             self.s.wait(61)
         elif how == "stop":
